@@ -651,6 +651,25 @@ func genEPUB(t *rapid.T) ECase {
 			it.Path = strings.ReplaceAll(it.Path, "+", "-")
 		}
 	}
+	// a second rendition: its own package document and chapters below alt/, listed as a later rootfile. The default
+	// rendition is the first package rootfile; nothing of the other rendition is part of the document.
+	if rapid.IntRange(0, 4).Draw(t, "altRendition") == 0 {
+		alt := epubw.Book{Version: b.Version, OPFPath: "alt/" + rapid.SampledFrom([]string{"package.opf", "content.opf", "a.opf"}).Draw(t, "altOPF"),
+			Title: "Alt", Language: "en", Identifier: "urn:uuid:alt"}
+		for i, n := 0, rapid.IntRange(1, 3).Draw(t, "altChapters"); i < n; i++ {
+			alt.Items = append(alt.Items, epubw.Item{ID: fmt.Sprintf("alt%d", i), Path: fmt.Sprintf("c%d.xhtml", i),
+				Chapter: epubw.Chapter{Heading: k.next(), Paras: []string{k.next()}}})
+			alt.Spine = append(alt.Spine, epubw.SpineRef{Item: i})
+		}
+		if ms, err := alt.Members(); err == nil {
+			for _, m := range ms {
+				if strings.HasPrefix(m.Name, "alt/") {
+					b.Decoys = append(b.Decoys, epubw.File{Path: m.Name, Data: m.Data})
+				}
+			}
+			b.Opt.AltPackages = append(b.Opt.AltPackages, alt.OPFPath)
+		}
+	}
 	return ECase{b}
 }
 
@@ -689,6 +708,7 @@ func metaEPUB(c ECase) vr.Meta {
 		flags["epub:has-ncx"] = flags["epub:has-ncx"] || it.Role == "ncx"
 	}
 	flags["epub:decoy-files"] = len(b.Decoys) > 0
+	flags["epub:second-rendition"] = len(b.Opt.AltPackages) > 0
 	for f, on := range flags {
 		if on {
 			lab = append(lab, f)
